@@ -1,6 +1,7 @@
 //! mode `codec`:  enc <frame> | rt <frame> | dec <hex> | flip <hex> <p1,p2,..> | crc <hex> | size <datagram>
 
 use uflow::verif::frame::*;
+use std::collections::HashMap;
 use crate::{util, text, Machine};
 
 pub struct CodecMachine;
@@ -54,6 +55,55 @@ impl Machine for CodecMachine {
                     }
                     _ => String::from("bad-op"),
                 }
+            }
+            Some("crcsearch") => {
+                // crcsearch <hex>: directed search for an accepted 1..4-bit corruption of a valid frame.
+                // Candidates come from per-bit syndromes (exact if the checksum is affine); every
+                // candidate is confirmed by running Frame::read on the corrupted bytes.
+                let bytes = match t.next().and_then(util::unhex) { Some(b) => b, None => return String::from("bad-op") };
+                if Frame::read(&bytes).is_none() || bytes.len() < 5 { return String::from("not-valid"); }
+                let n = bytes.len();
+                let body_len = n - 4;
+                let base = crc_compute(&bytes[..body_len]);
+                let mut syn: Vec<u32> = Vec::with_capacity(8 * n);
+                let mut tmp = bytes.clone();
+                for p in 0..8 * n {
+                    if p / 8 < body_len {
+                        tmp[p / 8] ^= 1 << (p % 8);
+                        syn.push(crc_compute(&tmp[..body_len]) ^ base);
+                        tmp[p / 8] ^= 1 << (p % 8);
+                    } else {
+                        let byte = p / 8 - body_len;          // 0 = most significant CRC byte
+                        syn.push(1u32 << (8 * (3 - byte) + p % 8));
+                    }
+                }
+                let confirm = |pos: &[usize]| -> bool {
+                    let mut b = bytes.clone();
+                    for &p in pos { b[p / 8] ^= 1 << (p % 8); }
+                    Frame::read(&b).is_some()
+                };
+                let m = syn.len();
+                for i in 0..m { if syn[i] == 0 && confirm(&[i]) { return format!("found {}", i); } }
+                let mut single: HashMap<u32, usize> = HashMap::new();
+                for i in 0..m {
+                    if let Some(&j) = single.get(&syn[i]) { if confirm(&[j, i]) { return format!("found {},{}", j, i); } }
+                    single.insert(syn[i], i);
+                }
+                // weight 3: pair xor equals a single; weight 4: two disjoint pairs with equal xor
+                let lim = m.min(3200);
+                let mut pairs: HashMap<u32, (usize, usize)> = HashMap::with_capacity(lim * lim / 2);
+                for i in 0..lim {
+                    for j in i + 1..lim {
+                        let x = syn[i] ^ syn[j];
+                        if let Some(&k) = single.get(&x) { if k != i && k != j && confirm(&[i, j, k]) { return format!("found {},{},{}", i, j, k); } }
+                        if let Some(&(a, b)) = pairs.get(&x) {
+                            if a != i && a != j && b != i && b != j && confirm(&[a, b, i, j]) { return format!("found {},{},{},{}", a, b, i, j); }
+                        } else {
+                            pairs.insert(x, (i, j));
+                        }
+                    }
+                }
+                String::from("none-found")
             }
             Some("crc") => {
                 match t.next().and_then(util::unhex) {
